@@ -10,7 +10,7 @@ import numpy as np
 from core.common import f2b, b2f, close
 
 ID = "C16"
-LEAN_MODULES = ["AcnProofs.C16"]
+LEAN_MODULES = ["AcnProofs.C16", "AcnProofs.C16Simple"]
 DRIVER = "drv_C16"
 REQUIRED_THEOREMS = [
     "Acn.C16.site_structure_caltech", "Acn.C16.site_structure_jpl", "Acn.C16.site_structure_office001",
@@ -18,7 +18,10 @@ REQUIRED_THEOREMS = [
     "Acn.C16.site_power_bound_nominal208", "Acn.C16.pod_panel_within_rating", "Acn.C16.generated_sites_power_bound",
     "Acn.C16.site_structure_all_voltages", "Acn.C16.feasible_iff", "Acn.C16.secondary_feasible_iff",
     "Acn.C16.wye_power_attained", "Acn.C16.balanced_draws_full_allowance", "Acn.C16.office001_bound_attained", "Acn.C16.caltech_bound_attained",
-    "Acn.C16.primary_implied",
+    "Acn.C16.primary_implied", "Acn.C16.site_default_ratings",
+    "Acn.C16.simple_formula", "Acn.C16.simple_defaults_documented", "Acn.C16.simple_instances",
+    "Acn.C16.simple_acn_structure", "Acn.C16.simple_acn_feasible_iff", "Acn.C16.simple_acn_power_le_cap",
+    "Acn.C16.simple_acn_power_le_cap_explicit", "Acn.C16.simple_acn_tight", "Acn.C16.simple_acn_above_rejected",
 ]
 BUDGET = {"quick": 700, "thorough": 12000, "search": 4000}
 TRUSTED = [
@@ -32,6 +35,10 @@ ASSUMPTIONS = [
     "208/(120√3) and the declared feasibility tolerance max(1e-5, 1e-7·limit) A per line, nothing more (DESIGN §8)",
     "membership of stations in transformers / pods / sub-panels used by the oracle is pinned in this file "
     "(documented topology), not read from the implementation",
+    "documented default ratings pinned in this file (SPEC / SIMPLE_DEFAULTS): Caltech 150 kW, JPL 45 / 150 kW, Office001 50 kW, "
+    "simple_acn 150 kW, all at 208 V, real EVSEs for the sites and BASIC for simple_acn; pods 80 A, panels 100 / 225 A",
+    "simple_acn: station ids are distinct (registering one id twice is outside the factory's contract; DESIGN §16); its power is "
+    "judged at the EVSE voltage passed to the factory, with the declared tolerance max(vt, rt·limit) A and nothing more",
 ]
 RULE = ("per case one real site object (caltech/jpl/office001 × basic/real EVSEs × default or other capacities), "
         "a non-negative direction matrix stations×T (random sparse, single-line-pair heavy, balanced, two-pair, "
@@ -43,7 +50,15 @@ RULE = ("per case one real site object (caltech/jpl/office001 × basic/real EVSE
         "every period is also judged alone (is_feasible of the single column); Office001 exhaustively over {0,16,32}^8 "
         "(27 chunks × 243 periods; all chunks at three capacities in the thorough tier, three random chunks in quick); "
         "non-trivial = schedule reported feasible with a transformer above 99 % of its allowance, or a boundary/edge case; "
-        "distinct by hash of the case")
+        "distinct by hash of the case; 18 % of the site objects are built WITHOUT passing the capacities (or with no argument at "
+        "all) and judged against the pinned documented ratings; "
+        "simple stream (one simple_acn object per case): 1 … 64 distinct station ids, EVSE type BASIC / AeroVironment / "
+        "ClipperCreek / omitted, voltage 120 / 208 / 240 / 277 / other / omitted, capacity default / integer / fractional / 0 / "
+        "negative / omitted, positional or keyword call, network_type omitted / ChargingNetwork / a subclass / StochasticNetwork, "
+        "JSON reload, own tolerances; schedules of 1-3 periods: random EV-like rates, every period at the first-principles "
+        "bound·(1−1e-8) (must be accepted), one period at bound·(1+1e-8) (must be refused), the mirror images with negative "
+        "currents, exact edge (integer multiples of ulp(bound) summing to the bound exactly / one ulp more), wrong number of "
+        "rows, voltage 0 (ZeroDivisionError); non-trivial = boundary / edge case or a feasible schedule above 99 % of the cap")
 
 VLL_NOM = 208.0
 KV = VLL_NOM / (120.0 * math.sqrt(3.0))
@@ -85,27 +100,30 @@ OTHER_CAPS = {
 _NETS = {}
 
 
-def _net(site, basic, caps, voltage=None, wrapper=None):
-    key = (site, bool(basic), tuple(float(c) for c in caps), voltage, wrapper)
+def _net(site, basic, caps, voltage=None, wrapper=None, omit=None):
+    """omit = "caps": the capacities are NOT passed (the case's caps are the pinned documented defaults);
+       omit = "all": the factory is called with no argument at all (documented: real EVSEs, 208 V, default ratings)"""
+    key = (site, bool(basic), tuple(float(c) for c in caps), voltage, wrapper, omit)
     if key not in _NETS:
         import contextlib
         import io
         from acnportal.acnsim.network import sites as S
         sp = SPEC[site]
-        kw = dict(zip(sp["cap_names"], caps))
-        if voltage is not None:
+        kw = dict(zip(sp["cap_names"], caps)) if omit is None else {}
+        if voltage is not None and omit != "all":
             kw["voltage"] = voltage
+        bkw = {} if omit == "all" else {"basic_evse": bool(basic)}
         with warnings.catch_warnings(), contextlib.redirect_stdout(io.StringIO()):
             warnings.simplefilter("ignore")
-            if wrapper == "pos":      # deprecated wrapper, positional (caltech only)
+            if wrapper == "pos" and omit is None:      # deprecated wrapper, positional (caltech only)
                 net = S.CaltechACN(bool(basic), 208 if voltage is None else voltage, *caps)
-            elif wrapper == "kw":
-                net = S.CaltechACN(basic_evse=bool(basic), **kw)
+            elif wrapper in ("kw", "pos"):
+                net = S.CaltechACN(**bkw, **kw)
             elif wrapper == "json":    # the site network after a JSON save and reload (still the predefined site)
-                net0 = getattr(S, sp["factory"])(basic_evse=bool(basic), **kw)
+                net0 = getattr(S, sp["factory"])(**bkw, **kw)
                 net = type(net0).from_json(net0.to_json())
             else:
-                net = getattr(S, sp["factory"])(basic_evse=bool(basic), **kw)
+                net = getattr(S, sp["factory"])(**bkw, **kw)
         if len(_NETS) > 64:
             _NETS.clear()
         _NETS[key] = net
@@ -113,12 +131,12 @@ def _net(site, basic, caps, voltage=None, wrapper=None):
 
 
 def _case_net(case):
-    return _net(case["site"], case["basic"], case["caps"], case.get("voltage"), case.get("wrapper"))
+    return _net(case["site"], case["basic"], case["caps"], case.get("voltage"), case.get("wrapper"), case.get("omit"))
 
 
 def _case_voltage(case):
     v = case.get("voltage")
-    return VLL_NOM if v is None else float(v)
+    return VLL_NOM if v is None or case.get("omit") == "all" else float(v)
 
 
 # ------------------------------------------------------------------ generation
@@ -187,6 +205,14 @@ def _gen_case(rng, i):
         case["wrapper"] = rng.choice(["kw", "pos"])
     elif rng.random() < 0.12:
         case["wrapper"] = "json"
+    # the documented DEFAULTS: the capacities are not passed / nothing is passed; judged against the pinned ratings
+    if list(caps) == list(sp["defaults"]) and rng.random() < 0.36:
+        if rng.random() < 0.5:
+            case["omit"] = "all"
+            case["basic"] = False
+            case.pop("voltage", None)
+        else:
+            case["omit"] = "caps"
     r = rng.random()
     if i % 11 == 10:
         case["mode"] = rng.choice(["edge0", "edge+"])
@@ -259,6 +285,13 @@ def corpus():
                         "dir": {"kind": "edge", "pick": pick * 7, "T": 1}})
             out.append({"site": site, "basic": True, "caps": list(SPEC[site]["defaults"]), "mode": "edge+",
                         "dir": {"kind": "edge", "pick": pick * 7, "T": 1}})
+    # the documented default ratings: nothing passed / only the EVSE type passed; at and just above the allowance
+    for site in ("caltech", "jpl", "office001"):
+        for omit, basic in (("all", False), ("caps", True), ("caps", False)):
+            for mode in ("boundary-", "boundary+"):
+                out.append({"site": site, "basic": basic, "caps": list(SPEC[site]["defaults"]), "omit": omit, "mode": mode, "dir": dict(bal)})
+    out.append({"site": "caltech", "basic": False, "caps": [150], "omit": "all", "wrapper": "kw", "mode": "boundary-", "dir": dict(bal)})
+    out += _simple_corpus()
     return out
 
 
@@ -270,6 +303,7 @@ def _exhaustive(chunk, caps):
 
 def generate(rng, n, tier):
     out = [_gen_case(rng, i) for i in range(n)]
+    out += [_simple_case(rng, i) for i in range(max(40, (n * 3) // 5))]
     if tier == "quick":
         out += [_exhaustive(rng.randrange(27), rng.choice([[33.3], [50], [20]])) for _ in range(3)]
     else:  # thorough / search: the complete small scope, at three capacities (all / part / few accepted)
@@ -380,6 +414,8 @@ def _edge_schedule(case, net, tol):
 
 
 def run_impl(case):
+    if case.get("stream") == "simple":
+        return _simple_run(case)
     net = _case_net(case)
     tol = case.get("tol")
     lin = bool(case.get("linear"))
@@ -391,6 +427,7 @@ def run_impl(case):
         "limits": [float(x) for x in net.magnitudes],
         "tol": [float(net.violation_tolerance), float(net.relative_tolerance)] if tol is None else [float(tol[0]), float(tol[1])],
         "max_rates": sorted({float(x) for x in net.max_pilot_signals}),
+        "continuous": [bool(x) for x in net.is_continuous],
     }
     M = np.array(net.constraint_matrix, dtype=float)
     # coverage: stations without a non-zero coefficient in a Secondary row of their (pinned) transformer
@@ -455,6 +492,8 @@ def _S(obs):
 # ------------------------------------------------------------------ model
 
 def model_request(case, obs):
+    if case.get("stream") == "simple":
+        return _simple_request(case, obs)
     if "S" not in obs or case.get("linear"):
         return None   # linear-mode answers are judged by the oracle only (the site model is the phasor check)
     return {"site": case["site"], "voltage": f2b(_case_voltage(case)), "caps": [f2b(float(c)) for c in case["caps"]],
@@ -473,6 +512,8 @@ def _razor(obs, t=None):
 
 
 def compare(case, obs, model):
+    if case.get("stream") == "simple":
+        return _simple_compare(case, obs, model)
     out = []
     if model.get("stations") != obs["stations"]:
         out.append("station ids differ between the regenerated model data and the site object")
@@ -547,6 +588,8 @@ def _tolterm(vt, rt, lim):
 
 
 def oracle(case, obs):
+    if case.get("stream") == "simple":
+        return _simple_oracle(case, obs)
     fails = []
     sp = SPEC[case["site"]]
     ids = obs["stations"]
@@ -561,6 +604,33 @@ def oracle(case, obs):
                       "detail": f"{sorted(set(obs['voltages']))} for voltage argument {_case_voltage(case)}"})
     if obs["uncovered"]:
         fails.append({"kind": "evse_not_under_transformer", "detail": f"{obs['uncovered'][:6]}"})
+    # (a') the limits the object carries are the documented ratings: secondary rows cap·1000/3/120 A for the capacities asked
+    #      for — the pinned documented defaults when they were not passed —, pods and panels their literal ratings
+    want = {}
+    for (xname, capi, _) in sp["xfmrs"]:
+        for ph in "ABC":
+            want[(xname + " Secondary " + ph).strip()] = float(case["caps"][capi]) * 1000.0 / 3.0 / 120.0
+    for (pname, rating, _) in sp["pods"]:
+        want[pname] = rating
+    for (pname, rating, _) in sp["panels"]:
+        for ph in "abc":
+            want[pname + " I_" + ph] = rating
+    got = dict(zip(obs["names"], obs["limits"]))
+    for nm, w in want.items():
+        if nm not in got or not close(got[nm], w):
+            fails.append({"kind": "default_rating_not_documented" if case.get("omit") else "limit_not_the_rating",
+                          "detail": f"{case['site']} {'built with its default arguments' if case.get('omit') else 'built for ' + str(case['caps'])}"
+                                    f": constraint {nm!r} carries {got.get(nm)!r} A, the documented rating gives {w!r} A"})
+            break
+    # (a'') EVSE types: BASIC (continuous, 32 A) when asked for, the real finite-rate types otherwise (the documented default)
+    cont = obs.get("continuous")
+    if cont is not None and len(cont) == len(ids):
+        if case["basic"] and not (all(cont) and obs["max_rates"] == [32.0]):
+            fails.append({"kind": "evse_type_not_as_requested", "detail": "basic_evse=True but not every EVSE is a continuous 32 A EVSE"})
+        if not case["basic"] and any(cont):
+            fails.append({"kind": "evse_type_not_as_requested",
+                          "detail": ("no argument passed (documented default basic_evse=False)" if case.get("omit") == "all" else "basic_evse=False")
+                                    + f" but {sum(cont)} of {len(cont)} EVSEs are continuous (BASIC)"})
     lonely = [s for s in ids if sum(1 for (_, _, pred) in sp["xfmrs"] if pred(s)) != 1]
     if lonely:
         fails.append({"kind": "evse_not_under_transformer", "detail": f"no pinned transformer for {lonely[:6]}"})
@@ -640,6 +710,8 @@ def _headroom(case, obs):
 
 
 def nontrivial(case, obs):
+    if case.get("stream") == "simple":
+        return _simple_nontrivial(case, obs)
     if case["mode"] in ("boundary-", "boundary+", "edge0", "edge+", "exhaustive") and "S" in obs:
         return True
     h = _headroom(case, obs)
@@ -647,10 +719,13 @@ def nontrivial(case, obs):
 
 
 def features(case, obs):
+    if case.get("stream") == "simple":
+        return _simple_features(case, obs)
     out = ["site:" + case["site"], "basic:" + str(bool(case["basic"])), "mode:" + case["mode"],
            "dir:" + case["dir"]["kind"], "T:" + str(case["dir"]["T"]),
            "caps:" + ("default" if list(case["caps"]) == list(SPEC[case["site"]]["defaults"]) else "other"),
-           "voltage:" + str(case.get("voltage", "default")), "factory:" + str(case.get("wrapper") or "site function")]
+           "voltage:" + str(case.get("voltage", "default")), "factory:" + str(case.get("wrapper") or "site function"),
+           "arguments:" + {None: "capacities passed", "caps": "capacities omitted", "all": "none at all"}[case.get("omit")]]
     if "skip" in obs:
         out.append("skip:" + obs["skip"])
         return out
@@ -678,4 +753,471 @@ def features(case, obs):
     S = _S(obs)
     if S.size and S.max() <= max(obs["max_rates"]) + 1e-9 and S.min() >= 0:
         out.append("within_evse_max")
+    return out
+
+
+# ====================================================================== simple_acn (auto_acn.py)
+# One case = one `simple_acn(...)` object and one schedule.  Everything the oracle expects is computed here from the
+# documented contract (n single-phase stations at the requested voltage and 0°, one constraint Σ I ≤ cap/voltage·1000 A),
+# never from the object under test.
+
+SIMPLE_DEFAULTS = {"evse_type": "BASIC", "voltage": 208, "cap": 150}      # documented defaults (docstring / signature)
+EVSE_DOC = {"BASIC": (True, [0.0, 32.0]),
+            "AeroVironment": (False, [0.0] + [float(i) for i in range(6, 33)]),
+            "ClipperCreek": (False, [0.0, 8.0, 16.0, 24.0, 32.0])}
+SIMPLE_VOLTAGES = [120, 208, 240, 277]
+SIMPLE_CAPS = [150, 80, 40, 7.5, 0.5, 33.3, 225.5, 1000, 61.7, 12.25]
+
+_SUBCLS = {}
+
+
+def _net_class(name):
+    from acnportal.acnsim.network import ChargingNetwork
+    if name in (None, "base"):
+        return ChargingNetwork
+    if name == "stochastic":
+        from acnportal.contrib.acnsim.network.stochastic_network import StochasticNetwork
+        return StochasticNetwork
+    if "sub" not in _SUBCLS:
+        class HarnessSubNetwork(ChargingNetwork):     # a user's subclass
+            pass
+        _SUBCLS["sub"] = HarnessSubNetwork
+    return _SUBCLS["sub"]
+
+
+def _simple_params(case):
+    """(evse type, voltage, cap) the object must have been built for: what was passed, else the documented default"""
+    ty = case.get("evse_type") or SIMPLE_DEFAULTS["evse_type"]
+    v = case.get("voltage")
+    c = case.get("cap")
+    return ty, float(SIMPLE_DEFAULTS["voltage"] if v is None else v), float(SIMPLE_DEFAULTS["cap"] if c is None else c)
+
+
+def _simple_bound(case, tol):
+    """(L, B) in doubles, in the documented operation order: L = cap / voltage · 1000, B = L + max(vt, rt·L)"""
+    _, v, c = _simple_params(case)
+    L = (c / v) * 1000
+    vt, rt = tol
+    return L, L + max(vt, rt * L)
+
+
+def _simple_net(case):
+    key = ("simple", tuple(case["ids"]), case.get("evse_type"), repr(case.get("voltage")), repr(case.get("cap")),
+           case.get("net_type"), bool(case.get("positional")), case.get("wrapper"))
+    if key not in _NETS:
+        from acnportal.acnsim.network.sites import simple_acn
+        ids = list(case["ids"])
+        with warnings.catch_warnings():
+            warnings.simplefilter("ignore")
+            if case.get("positional"):   # simple_acn(station_ids, evse_type, voltage, aggregate_cap, network_type)
+                ty, v, c = case["evse_type"], case["voltage"], case["cap"]
+                args = [ids, ty, v, c] + ([_net_class(case["net_type"])] if case.get("net_type") else [])
+                net = simple_acn(*args)
+            else:
+                kw = {}
+                if case.get("evse_type") is not None:
+                    kw["evse_type"] = case["evse_type"]
+                if case.get("voltage") is not None:
+                    kw["voltage"] = case["voltage"]
+                if case.get("cap") is not None:
+                    kw["aggregate_cap"] = case["cap"]
+                if case.get("net_type") is not None:
+                    kw["network_type"] = _net_class(case["net_type"])
+                net = simple_acn(ids, **kw)
+            if case.get("wrapper") == "json":
+                net = type(net).from_json(net.to_json())
+        if len(_NETS) > 64:
+            _NETS.clear()
+        _NETS[key] = net
+    return _NETS[key]
+
+
+def _simple_ids(rng):
+    r = rng.random()
+    n = 1 if r < 0.14 else rng.randint(2, 9) if r < 0.6 else rng.randint(10, 49) if r < 0.82 else rng.randint(50, 64)
+    style = rng.choice(["ca", "s", "num", "odd", "mixed"])
+    if style == "ca":
+        pool = ["CA-%d" % k for k in rng.sample(range(100, 600), n)]
+    elif style == "s":
+        pool = ["s%d" % k for k in range(n)]
+        rng.shuffle(pool)
+    elif style == "num":
+        pool = ["%02d" % k for k in rng.sample(range(0, 99), n)]
+    elif style == "odd":
+        base = ["a b", "Ünï", "x/1", "0", "-1", "PS 001", "é", "ID#7", "q.r", "A", "a", "B-"]
+        pool = (base + ["odd%d" % k for k in range(n)])[:n]
+        rng.shuffle(pool)
+    else:
+        pool = ["AG-1F%02d" % k for k in range(1, n // 2 + 1)] + ["PS-%03d" % k for k in range(n - n // 2)]
+    return pool
+
+
+def _simple_case(rng, i):
+    ids = _simple_ids(rng)
+    n = len(ids)
+    case = {"stream": "simple", "ids": ids}
+    if rng.random() < 0.7:
+        case["evse_type"] = rng.choice(["BASIC", "AeroVironment", "ClipperCreek"])
+    r = rng.random()
+    if r < 0.6:
+        case["voltage"] = rng.choice(SIMPLE_VOLTAGES)
+    elif r < 0.72:
+        case["voltage"] = rng.choice([208.0, 207.85, 480, 230.5, 1000])
+    r = rng.random()
+    if r < 0.6:
+        case["cap"] = rng.choice(SIMPLE_CAPS)
+    elif r < 0.72:
+        case["cap"] = round(rng.uniform(0.2, 400.0), rng.choice([0, 1, 3]))
+    if rng.random() < 0.35:
+        case["net_type"] = rng.choice(["base", "sub", "sub", "stochastic"])
+    if rng.random() < 0.12:      # positional call: every argument must be given
+        case["positional"] = True
+        case.setdefault("evse_type", rng.choice(["BASIC", "AeroVironment", "ClipperCreek"]))
+        case.setdefault("voltage", rng.choice(SIMPLE_VOLTAGES))
+        case.setdefault("cap", rng.choice(SIMPLE_CAPS))
+    if rng.random() < 0.1:
+        case["wrapper"] = "json"        # from_json(to_json()) of the object (a class of the package: the harness subclass cannot be reloaded)
+        if case.get("net_type") == "sub":
+            case["net_type"] = "base"
+    T = rng.choice([1, 1, 2, 3])
+    case["T"] = T
+    # non-negative weights, every period has a positive one; sparse and dense
+    dense = rng.random() < 0.5
+    W = [[(round(rng.uniform(0.05, 1.0), 3) if (dense or rng.random() < 0.3) else 0.0) for _ in range(T)] for _ in range(n)]
+    for t in range(T):
+        if not any(W[j][t] > 0 for j in range(n)):
+            W[rng.randrange(n)][t] = 1.0
+    case["w"] = W
+    case["hot"] = rng.randrange(T)          # the period that is pushed over the bound in the "+" modes
+    r = rng.random()
+    if i % 9 == 8:
+        case["mode"] = rng.choice(["edge0", "edge+"])
+        case["split"] = [rng.random() for _ in range(n)]
+        if rng.random() < 0.5:
+            case["tol"] = [0.0, 0.0]
+    elif r < 0.20:
+        case["mode"] = "raw"
+        case["scale"] = rng.choice([1.0, 1.0, 0.5, 2.0, 4.0, 0.1])
+    elif r < 0.48:
+        case["mode"] = "boundary-"
+    elif r < 0.76:
+        case["mode"] = "boundary+"
+    elif r < 0.82:
+        case["mode"] = rng.choice(["negative-", "negative+"])
+    elif r < 0.86:
+        case["mode"] = "mixed"
+    elif r < 0.90:
+        case["mode"] = "malformed"
+        case["drop"] = rng.choice([1, -1])
+    elif r < 0.93:
+        case["mode"] = "zero_voltage"
+        case["voltage"] = rng.choice([0, 0.0])
+        case.pop("wrapper", None)
+    elif r < 0.96:
+        case["mode"] = "boundary-"
+        case["cap"] = rng.choice([0, 0.0, -5, -0.001])
+        if case.get("positional"):
+            pass
+    else:
+        case["mode"] = rng.choice(["boundary-", "boundary+"])
+        case["tol"] = rng.choice([[0.0, 0.0], [1e-3, 0.0], [0.0, 1e-4], [1e-5, 1e-7], [0.5, 0.0]])
+    if case["mode"] in ("raw", "boundary-", "boundary+") and rng.random() < 0.1:
+        case["linear"] = True
+    return case
+
+
+def _simple_corpus():
+    out = []
+    one = lambda n, T=1: [[1.0] * T for _ in range(n)]
+    # the documented defaults, nothing but the ids passed: at the bound and just above, 1 / 3 / 54 stations
+    for ids in (["s0"], ["a", "b", "c"], ["PS-%03d" % k for k in range(54)]):
+        for mode in ("boundary-", "boundary+", "edge0", "edge+"):
+            c = {"stream": "simple", "ids": ids, "T": 1, "w": one(len(ids)), "hot": 0, "mode": mode}
+            if mode.startswith("edge"):
+                c["split"] = [0.5] * len(ids)
+            out.append(c)
+    # every EVSE type × every documented voltage, fractional capacity
+    for ty in ("BASIC", "AeroVironment", "ClipperCreek"):
+        for v in SIMPLE_VOLTAGES:
+            out.append({"stream": "simple", "ids": ["x", "y", "z", "w"], "evse_type": ty, "voltage": v, "cap": 7.5, "T": 2,
+                        "w": [[1.0, 0.2], [0.5, 0.0], [0.0, 1.0], [0.25, 0.25]], "hot": 1, "mode": "boundary+"})
+    # each argument omitted on its own
+    for kw in ({"voltage": 240}, {"cap": 80}, {"evse_type": "ClipperCreek"}, {"net_type": "sub"}, {"net_type": "stochastic"}):
+        c = {"stream": "simple", "ids": ["p", "q"], "T": 1, "w": one(2), "hot": 0, "mode": "boundary-"}
+        c.update(kw)
+        out.append(c)
+    out.append({"stream": "simple", "ids": ["p", "q"], "evse_type": "BASIC", "voltage": 0, "cap": 10, "T": 1, "w": one(2), "hot": 0,
+                "mode": "zero_voltage"})
+    out.append({"stream": "simple", "ids": ["p", "q", "r"], "evse_type": "AeroVironment", "voltage": 277, "cap": 33.3, "positional": True,
+                "net_type": "sub", "T": 3, "w": one(3, 3), "hot": 2, "mode": "boundary+"})
+    return out
+
+
+def _simple_schedule(case, tol):
+    """the schedule of the case (n × T numpy array) and, for the modes that have one, the expected decision per period"""
+    n, T = len(case["ids"]), case["T"]
+    W = np.array(case["w"], dtype=float).reshape(n, T)
+    L, B = _simple_bound(case, tol)
+    mode = case["mode"]
+    hot = case.get("hot", 0) % T
+    if mode in ("raw", "mixed"):
+        rates = np.array([[0.0, 6.0, 8.0, 16.0, 24.0, 32.0][int(W[j, t] * 997) % 6] if W[j, t] > 0 else 0.0
+                          for j in range(n) for t in range(T)]).reshape(n, T)
+        S = case.get("scale", 1.0) * rates
+        if mode == "mixed":
+            S = S * np.where((np.arange(n) % 3 == 0)[:, None], -1.0, 1.0)
+        return S, None
+    if mode in ("edge0", "edge+"):
+        if not (B > 0) or not math.isfinite(B):
+            return None, None
+        g = math.ulp(B)
+        m = int(round(B / g))            # B = m·g exactly (m < 2^53)
+        if m * g != B:
+            return None, None
+        sp = np.array(case.get("split") or [1.0] * n, dtype=float)
+        sp = sp / sp.sum()
+        S = np.zeros((n, T))
+        exp = []
+        for t in range(T):
+            ks = [int(m * x) for x in sp]
+            ks[t % n] += m - sum(ks)    # the integer parts sum to m exactly
+            over = mode == "edge+" and t == hot
+            if over:
+                ks[(t + 1) % n] += 1
+            for j in range(n):
+                S[j, t] = ks[j] * g     # integer multiples of g below 2^53·g: exact, and so is every partial sum
+            exp.append(not over)
+        return S, exp
+    if mode == "malformed" or mode == "zero_voltage":
+        S = W * 1.0
+        if mode == "malformed":
+            # (a ONE-row schedule is broadcast by numpy to every station — not an error —, so a row is only dropped when ≥ 2 remain)
+            S = S[:-1, :] if (case.get("drop", 1) == 1 and n > 2) else np.vstack([S, S[:1, :]])
+        return S, None
+    # boundary modes: every period totals B·(1−δ); in the "+" modes the hot period totals B·(1+δ)
+    if not (B > 0):
+        # nothing positive can be drawn: the all-zero schedule is accepted iff 0 ≤ B
+        return np.zeros((n, T)), [bool(B >= 0)] * T
+    S = np.zeros((n, T))
+    exp = []
+    for t in range(T):
+        over = mode in ("boundary+", "negative+") and t == hot
+        tot = B * (1 + DELTA) if over else B * (1 - DELTA)
+        S[:, t] = W[:, t] / W[:, t].sum() * tot
+        exp.append(not over)
+    if mode.startswith("negative"):
+        S = -S
+    return S, exp
+
+
+def _simple_run(case):
+    tol = case.get("tol")
+    if case["mode"] == "zero_voltage":
+        try:
+            _simple_net(case)
+        except ZeroDivisionError:
+            return {"err": "ZeroDivisionError", "tol": list(tol or DEFAULT_TOL)}
+        return {"err": None, "built_with_zero_voltage": True, "tol": list(tol or DEFAULT_TOL)}
+    net = _simple_net(case)
+    want_cls = _net_class(case.get("net_type"))
+    M = net.constraint_matrix
+    obs = {
+        "stations": list(net.station_ids), "names": list(net.constraint_index),
+        "angles": [float(a) for a in net._phase_angles], "voltages": [float(v) for v in net._voltages],
+        "limits": [float(x) for x in net.magnitudes],
+        "M": [] if M is None else [[float(x) for x in row] for row in np.array(M, dtype=float).reshape(len(net.constraint_index), -1).tolist()],
+        "tol": [float(net.violation_tolerance), float(net.relative_tolerance)] if tol is None else [float(tol[0]), float(tol[1])],
+        "max_rates": [float(x) for x in net.max_pilot_signals],
+        "continuous": [bool(x) for x in net.is_continuous],
+        "levels": [sorted({float(x) for x in a}) for a in net.allowable_rates],
+        "net_class": type(net).__name__, "net_class_ok": type(net) is want_cls,
+    }
+    S, expected = _simple_schedule(case, obs["tol"] if tol is not None else list(DEFAULT_TOL))
+    if S is None:
+        obs["skip"] = "no exact edge"
+        return obs
+    lin = bool(case.get("linear"))
+    obs["S"] = [[f2b(x) for x in row] for row in S.tolist()]
+    obs["expected_t"] = expected
+    try:
+        feas = _feas(net, S, tol, lin)
+        mags = np.abs(net.constraint_current(S))
+    except ValueError:
+        obs["err"] = "ValueError"
+        return obs
+    obs["err"] = None
+    obs["feasible"] = feas
+    obs["feas_t"] = [_feas(net, S[:, t:t + 1], tol, lin) for t in range(S.shape[1])]
+    obs["mags"] = [[float(x) for x in row] for row in mags.tolist()]
+    return obs
+
+
+def _simple_request(case, obs):
+    req = {"kind": "simple", "ids": case["ids"], "voltage": None if case.get("voltage") is None else f2b(float(case["voltage"])),
+           "cap": None if case.get("cap") is None else f2b(float(case["cap"])),
+           "vt": f2b(obs["tol"][0]), "rt": f2b(obs["tol"][1]), "S": obs.get("S")}
+    return req
+
+
+def _simple_razor(case, obs, t=None):
+    _, B = _simple_bound(case, obs["tol"])
+    for m in (obs["mags"][0] if t is None else obs["mags"][0][t:t + 1]) if obs.get("mags") else []:
+        if abs(m - B) <= 1e-9 * max(1.0, abs(B)):
+            return True
+    return False
+
+
+def _simple_compare(case, obs, model):
+    out = []
+    if not model.get("body_shape_ok", False):
+        out.append("model: the regenerated body of simple_acn no longer has the documented shape (one registration per id, one constraint over all ids)")
+    if case["mode"] == "zero_voltage":
+        if (obs.get("err") == "ZeroDivisionError") != (model.get("err") == "ZeroDivisionError"):
+            out.append(f"voltage 0: impl err={obs.get('err')} model err={model.get('err')}")
+        return out
+    if model.get("err") not in (None, "shape"):
+        return out + [f"model refuses the network: {model.get('err')}"]
+    if model.get("stations") != obs["stations"]:
+        out.append(f"stations impl={obs['stations'][:6]} model={model.get('stations', [])[:6]}")
+    if model.get("names") != obs["names"]:
+        out.append(f"constraint names impl={obs['names']} model={model.get('names')}")
+    for key in ("angles", "voltages", "limits"):
+        mv = [b2f(x) for x in model.get(key, [])]
+        if len(mv) != len(obs[key]) or not all(close(a, b) for a, b in zip(obs[key], mv)):
+            out.append(f"{key} impl={obs[key][:6]} model={mv[:6]}")
+    mm = [[b2f(x) for x in row] for row in model.get("M", [])]
+    if mm != obs["M"]:
+        out.append(f"constraint matrix impl={[r[:6] for r in obs['M'][:3]]} model={[r[:6] for r in mm[:3]]}")
+    if "S" not in obs:
+        return out
+    if (obs.get("err") == "ValueError") != (model.get("err") == "shape"):
+        out.append(f"error class: impl={obs.get('err')} model={model.get('err')}")
+    if obs.get("err") is not None or model.get("err") is not None:
+        return out
+    exact = case["mode"] in ("edge0", "edge+")
+    if model["feasible"] != obs["feasible"] and (exact or not _simple_razor(case, obs)):
+        out.append(f"is_feasible impl={obs['feasible']} model={model['feasible']}")
+    for t, (a, m) in enumerate(zip(obs["feas_t"], model.get("feas_t", []))):
+        if a != m and (exact or not _simple_razor(case, obs, t)):
+            out.append(f"is_feasible of period {t} alone: impl={a} model={m}")
+            break
+    if len(model.get("feas_t", [])) != len(obs["feas_t"]):
+        out.append("number of periods differs")
+    tot = [b2f(x) for x in model.get("total", [])]
+    if len(obs["mags"]) != 1 or len(tot) != len(obs["mags"][0]) or not all(close(abs(a), b) for a, b in zip(tot, obs["mags"][0])):
+        out.append(f"|aggregate current| impl={obs['mags']} model Σ={tot}")
+    _, v, _c = _simple_params(case)
+    S = _S(obs)
+    pk = [b2f(x) for x in model.get("powerKW", [])]
+    if not all(close(v * S[:, t].sum() / 1000.0, pk[t]) for t in range(min(len(pk), S.shape[1]))):
+        out.append(f"power [kW] impl-side V·ΣS/1000={[v * S[:, t].sum() / 1000.0 for t in range(S.shape[1])]} model={pk}")
+    return out
+
+
+def _simple_oracle(case, obs):
+    fails = []
+    ids = list(case["ids"])
+    n = len(ids)
+    ty, v, c = _simple_params(case)
+    how = "" if all(case.get(k) is not None for k in ("evse_type", "voltage", "cap")) else " (omitted arguments: documented defaults BASIC / 208 V / 150 kW)"
+    if case["mode"] == "zero_voltage":
+        if obs.get("err") != "ZeroDivisionError":
+            fails.append({"kind": "simple_zero_voltage_accepted", "detail": "simple_acn(voltage=0) returned a network (limit inf/nan?) instead of raising"})
+        return fails
+    # (a) structure
+    if obs["stations"] != ids:
+        fails.append({"kind": "simple_stations_not_the_ids", "detail": f"asked for {ids[:8]}… ({n}), registered {obs['stations'][:8]}… ({len(obs['stations'])})"})
+    if not obs.get("net_class_ok"):
+        fails.append({"kind": "simple_network_type_not_as_requested", "detail": f"network_type={case.get('net_type')}: got {obs['net_class']}"})
+    if len(obs["angles"]) != n or any(a != 0.0 for a in obs["angles"]):
+        fails.append({"kind": "simple_phase_angle_not_zero", "detail": f"single-phase network, angles {sorted(set(obs['angles']))[:4]} ({len(obs['angles'])} for {n} stations)"})
+    if len(obs["voltages"]) != n or any(x != v for x in obs["voltages"]):
+        fails.append({"kind": "simple_voltage_not_as_requested", "detail": f"requested {v} V{how}: EVSE voltages {sorted(set(obs['voltages']))[:4]}"})
+    cont, levels = EVSE_DOC[ty]
+    if (len(obs["continuous"]) != n or any(x != cont for x in obs["continuous"]) or any(lv != levels for lv in obs["levels"])
+            or any(m != 32.0 for m in obs["max_rates"])):
+        fails.append({"kind": "simple_evse_type_not_as_requested", "detail": f"evse_type {ty}{how}: continuous={sorted(set(obs['continuous']))}, "
+                                                                             f"levels of the first EVSE {obs['levels'][:1]}"})
+    # exactly one constraint, coefficient 1 on every station
+    if len(obs["M"]) != 1 or len(obs["limits"]) != 1 or len(obs["names"]) != 1:
+        fails.append({"kind": "simple_not_exactly_one_constraint", "detail": f"{len(obs['M'])} rows, {len(obs['limits'])} limits, names {obs['names']}"})
+        return fails
+    if len(obs["M"][0]) != n or any(x != 1.0 for x in obs["M"][0]):
+        bad = [ids[j] for j, x in enumerate(obs["M"][0][:n]) if x != 1.0]
+        fails.append({"kind": "simple_station_not_under_the_constraint", "detail": f"coefficients ≠ 1 for {bad[:6]} (row length {len(obs['M'][0])}, {n} stations)"})
+    L, B = _simple_bound(case, obs["tol"])
+    if not close(obs["limits"][0], L):
+        fails.append({"kind": "simple_limit_not_cap_over_voltage", "detail": f"{c} kW at {v} V{how}: limit {obs['limits'][0]!r} A, documented cap/voltage·1000 = {L!r} A"})
+    if "S" not in obs or obs.get("err") is not None:
+        if case["mode"] == "malformed" and obs.get("err") != "ValueError" and "S" in obs:
+            fails.append({"kind": "simple_malformed_schedule_accepted", "detail": "a schedule with the wrong number of rows was not refused"})
+        return fails
+    S = _S(obs)
+    if S.shape[0] != n:
+        return fails
+    # (b) decisions that are fixed by construction (boundary ∓ 1e-8 relative, exact edges)
+    exp = obs.get("expected_t")
+    if exp is not None:
+        for t, (e, a) in enumerate(zip(exp, obs["feas_t"])):
+            if e != a:
+                tot = S[:, t].sum()
+                fails.append({"kind": "simple_power_above_cap" if (a and not e) else "simple_rejects_within_cap",
+                              "detail": f"mode {case['mode']}, {n} stations, {c} kW at {v} V{how}: period {t} totals {tot!r} A = {v * tot / 1000.0:.9f} kW, "
+                                        f"bound {B!r} A; is_feasible={a}, expected {e}"})
+                break
+    if obs["feasible"] != all(obs["feas_t"]):
+        fails.append({"kind": "feasible_not_conjunction_of_periods", "detail": f"is_feasible={obs['feasible']} but per period {obs['feas_t'][:8]}"})
+    # (c) the property itself, for every period judged alone:  accepted ⇒ V·ΣS/1000 ≤ cap + V·max(vt, rt·L)/1000;
+    #     and 0 ≤ bound, |Σ S| below the bound by more than the rounding slack ⇒ accepted
+    vt, rt = obs["tol"]
+    slack = 1e-9
+    allowed_kw = c + v * max(vt, rt * L) / 1000.0
+    for t, a in enumerate(obs["feas_t"]):
+        tot = float(S[:, t].sum())
+        p = v * tot / 1000.0
+        if a and v > 0 and p > allowed_kw + slack * (1 + abs(allowed_kw)):
+            fails.append({"kind": "simple_power_above_cap",
+                          "detail": f"{n} stations, cap {c} kW at {v} V{how}: accepted period {t} draws {p:.9f} kW > {allowed_kw:.9f} kW (cap + declared tolerance)"})
+            break
+        if a and abs(tot) > B + slack * (1 + abs(B)):
+            fails.append({"kind": "simple_power_above_cap", "detail": f"accepted period {t}: |Σ S| = {abs(tot)!r} A above the bound {B!r} A"})
+            break
+        if not a and B >= 0 and abs(tot) < B - slack * (1 + abs(B)):
+            fails.append({"kind": "simple_rejects_within_cap",
+                          "detail": f"{n} stations, cap {c} kW at {v} V{how}: period {t} totals {tot!r} A ({p:.9f} kW), below the bound {B!r} A, and is refused"})
+            break
+    return fails
+
+
+def _simple_nontrivial(case, obs):
+    if "S" not in obs or obs.get("err") is not None:
+        return False
+    if case["mode"] in ("boundary-", "boundary+", "negative-", "negative+", "edge0", "edge+"):
+        return True
+    _, v, c = _simple_params(case)
+    S = _S(obs)
+    return any(a and c > 0 and v * S[:, t].sum() / 1000.0 > 0.99 * c for t, a in enumerate(obs.get("feas_t", [])))
+
+
+def _simple_features(case, obs):
+    n = len(case["ids"])
+    out = ["stream:simple", "site:simple_acn", "mode:" + case["mode"], "T:" + str(case["T"]),
+           "n:" + ("1" if n == 1 else "2-9" if n < 10 else "10-49" if n < 50 else "50+"),
+           "evse:" + str(case.get("evse_type") or "omitted"),
+           "voltage:" + ("omitted" if case.get("voltage") is None else str(case["voltage"]) if case["voltage"] in SIMPLE_VOLTAGES else "other"),
+           "cap:" + ("omitted" if case.get("cap") is None else "fractional" if float(case["cap"]) != int(float(case["cap"])) else
+                     "non-positive" if float(case["cap"]) <= 0 else "integer"),
+           "network_type:" + str(case.get("net_type") or "omitted"),
+           "call:" + ("positional" if case.get("positional") else "keyword"),
+           "factory:" + ("simple_acn + json reload" if case.get("wrapper") == "json" else "simple_acn")]
+    if case.get("tol") is not None:
+        out.append("tolerances:own")
+    if case.get("linear"):
+        out.append("asked:linear")
+    if "skip" in obs:
+        out.append("skip:" + obs["skip"])
+    elif obs.get("err"):
+        out.append("err:" + obs["err"])
+    elif "feasible" in obs:
+        out.append("feasible:" + str(obs["feasible"]))
     return out
